@@ -91,19 +91,13 @@ pub fn eval_oods_boundary_poly_at_points<Layout: LayoutTrait>(
     points: &[Felt],
     decommitment: &trace::Decommitment,
     composition_decommitment: &table::types::Decommitment,
-) -> Vec<Felt> {
-    assert!(
-        decommitment.original.values.len() == points.len() * n_original_columns,
-        "Invalid value"
-    );
-    assert!(
-        decommitment.interaction.values.len() == points.len() * n_interaction_columns,
-        "Invalid value"
-    );
-    assert!(
-        composition_decommitment.values.len() == points.len() * Layout::CONSTRAINT_DEGREE,
-        "Invalid value"
-    );
+) -> Result<Vec<Felt>, OodsEvalError> {
+    if decommitment.original.values.len() != points.len() * n_original_columns
+        || decommitment.interaction.values.len() != points.len() * n_interaction_columns
+        || composition_decommitment.values.len() != points.len() * Layout::CONSTRAINT_DEGREE
+    {
+        return Err(OodsEvalError::DecommitmentLengthInvalid);
+    }
 
     let mut evaluations = Vec::with_capacity(points.len());
 
@@ -132,8 +126,26 @@ pub fn eval_oods_boundary_poly_at_points<Layout: LayoutTrait>(
             &point,
             &eval_info.oods_point,
             &eval_info.trace_generator,
-        ).unwrap());
+        )?);
     }
 
-    evaluations
+    Ok(evaluations)
+}
+
+#[cfg(feature = "std")]
+#[derive(Error, Debug)]
+pub enum OodsEvalError {
+    #[error("decommitment length does not match the number of queries and columns")]
+    DecommitmentLengthInvalid,
+    #[error("OodsPolyEval Error")]
+    OodsPolyEvalError(#[from] swiftness_air::layout::OodsPolyEvalError),
+}
+
+#[cfg(not(feature = "std"))]
+#[derive(Error, Debug)]
+pub enum OodsEvalError {
+    #[error("decommitment length does not match the number of queries and columns")]
+    DecommitmentLengthInvalid,
+    #[error("OodsPolyEval Error")]
+    OodsPolyEvalError(#[from] swiftness_air::layout::OodsPolyEvalError),
 }
